@@ -44,6 +44,11 @@ type lStatePool struct {
 	s     *Server
 	saved []*lua.LState
 	total int
+	// evalcmd holds, per running state, the command (eval, evalro, evalna,
+	// ...) that started the script. It decides which of the atomic,
+	// read-only or non-atomic paths tile38.call takes, so it must not live
+	// where the script itself can write to it.
+	evalcmd sync.Map // *lua.LState -> string
 }
 
 // newPool returns a new pool of lua states
@@ -121,7 +126,9 @@ func (pl *lStatePool) New() *lua.LState {
 	}
 
 	getArgs := func(ls *lua.LState) (evalCmd string, args []string) {
-		evalCmd = ls.GetGlobal("EVAL_CMD").String()
+		if v, ok := pl.evalcmd.Load(ls); ok {
+			evalCmd = v.(string)
+		}
 
 		// Trying to work with unknown number of args.
 		// When we see empty arg we call it enough.
@@ -478,6 +485,8 @@ func (s *Server) cmdEvalUnified(scriptIsSha bool, msg *Message) (res resp.Value,
 		shaSum = Sha1Sum(script)
 	}
 
+	s.luapool.evalcmd.Store(luaState, msg.Command())
+	defer s.luapool.evalcmd.Delete(luaState)
 	luaSetRawGlobals(
 		luaState, map[string]lua.LValue{
 			"KEYS":     keysTbl,
